@@ -185,7 +185,18 @@ def attach_loops(body, loops, report):
             rest = clause.lstrip().split('\n', 1)[1] if '\n' in clause.lstrip() else ''
             amp = '&' if first == 'as-while-ref' else ''
             expr_c = expr.lstrip('&').strip()
-            new_head = (f'let mut {idx}: usize = 0;\nwhile {idx} < {expr_c}.len()\n{rest}\n    decreases {expr_c}.len() - {idx}\n')
+            pre = ''
+            if not re.match(r'^[\w.]+$', expr_c):
+                # the collection is an expression (a call): evaluated once, as the for-loop does
+                pre = f'let __c{ordinal} = {expr_c};\n'
+                expr_c = f'__c{ordinal}'
+            # a loop label stays on the loop
+            lab = re.search(r"('\w+:\s*)$", out[:s])
+            label = ''
+            if lab:
+                label = lab.group(1)
+                s = lab.start()
+            new_head = (f'{pre}let mut {idx}: usize = 0;\n{label}while {idx} < {expr_c}.len()\n{rest}\n    decreases {expr_c}.len() - {idx}\n')
             body_open = f'{{\n let {pat} = {amp}{expr_c}[{idx}]; {idx} += 1;'
             out = out[:s] + new_head + body_open + out[ob + 1:]
             report['rewrites']['R5c for-loop desugared to an index loop'] = report['rewrites'].get('R5c for-loop desugared to an index loop', 0) + 1
